@@ -343,6 +343,72 @@ def rule_order(ctx, rep):
     lfht.rule_shrink(ctx, rep, "C09.order")
 
 
+def rule_countorder(ctx, rep):
+    """Every size the table accepts (initial, minimum, maximum, requested resize) becomes a level count through
+    cds_lfht_get_count_order_ulong(x) = the least order with x <= 1 << order = fls(x - 1) for x > 0, and fls(y) is `index of the most
+    significant set bit + 1` (0 for y = 0).  An order that is off by one makes the table larger than max_nr_buckets (or half the size
+    asked for), and for x = 1 shifts by a negative amount.  Decided on the shape of the two functions of this configuration."""
+    m = ctx.mod("cds", "perfn")
+    co = m.fn("cds_lfht_get_count_order_ulong")
+    if co is None:
+        raise Broken("cds_lfht_get_count_order_ulong vanished")
+    rep.touch(co)
+    from .. import linear
+    seen = 0
+    for r in co.rets():
+        e = ir.expr(co, r.args[0], 8, through_phi=False)
+        alts = [(ir.expr(co, v, 8), blk) for v, blk in co.insts[e[1]].d["inc"]] if e[0] == "phi" else [(e, r.blk.id)]
+        for a, blk in alts:
+            guard = list(pat.dom_leaf_atoms(co, co.blocks[blk].insts[0]))
+            if e[0] == "phi" and len(co.blocks[blk].succ) >= 2:
+                guard += list(ir.edge_atoms(co, blk, co.insts[e[1]].blk.id))        # the value arrives along a conditional edge
+            a2 = a
+            while a2[0] == "cast":
+                a2 = a2[-1]
+            if a2[0] == "c":
+                seen += 1
+                rep.check(a2[1] == -1 and ("eq", ("arg", 0), ("c", 0)) in guard, "C09.countorder", "zero", "count order is -1 exactly for x == 0",
+                          "the constant %d is returned under %s instead of -1 under x == 0" % (a2[1], [g_ for g_ in guard if g_[1] == ("arg", 0)]), [r.where()])
+            elif a2[0] == "call":
+                seen += 1
+                ci = co.insts[a2[2]]
+                arg = linear.norm(ir.expr(co, ci.args[0], 8))
+                rep.check(("ne", ("arg", 0), ("c", 0)) in guard, "C09.countorder", "nonzero", "fls(x - 1) is used for x != 0", "fls(x - 1) is evaluated under %s" % [g_ for g_ in guard if g_[1] == ("arg", 0)], [ci.where()])
+                rep.check(arg == {("t", "arg0"): 1, 1: -1} or arg == linear.norm(("bin", "add", ("arg", 0), ("c", -1))), "C09.countorder", "fls(x-1)", "count order of x > 0 is fls(x - 1)",
+                          "count order of x is fls(%s), not fls(x - 1): sizes are rounded to the wrong power of two (a table created at max_nr_buckets exceeds it; order of 1 is not 0)"
+                          % linear.show(arg) if arg is not None else "?", [ci.where()])
+                g = m.fn(ci.callee)
+                hops = 0
+                while g is not None and hops < 3:
+                    rs = [ir.expr(g, x.args[0], 8) for x in g.rets() if x.args]
+                    inner = [x for x in rs if x[0] == "call"]
+                    if len(rs) == 1 and inner and not any(i.op == "asm" for i in g.all_insts()):
+                        g = m.fn(inner[0][1])
+                        hops += 1
+                        continue
+                    break
+                if g is None:
+                    raise Broken("fls helper of cds_lfht_get_count_order_ulong not found")
+                rep.touch(g)
+                asm = [i for i in g.all_insts() if i.op == "asm"]
+                if asm and "bsr" in asm[0].d.get("asm", ""):
+                    for x in g.rets():
+                        ee = ir.expr(g, x.args[0], 8)
+                        while ee[0] == "cast":
+                            ee = ee[-1]
+                        ok = ee[0] == "bin" and ee[1] == "add" and ee[3] == ("c", 1) and ir.expr_contains(ee[2], lambda z: z[0] == "asm")
+                        rep.check(ok, "C09.countorder", "fls=bsr+1", "fls(y) is the bsr bit index + 1 (0 when no bit is set: the asm loads -1)",
+                                  "fls(y) returns %s instead of bsr + 1: every size-to-order conversion is off" % ir.expr_str(ee), [x.where()])
+                    rep.check("$$-1" in asm[0].d["asm"] or "$-1" in asm[0].d["asm"], "C09.countorder", "fls(0)", "bsr of 0 yields -1, so fls(0) = 0", "the no-bit-set case of the bsr sequence does not load -1", [asm[0].where()])
+                else:
+                    rep.unk("C09.countorder", "fls", "fls implementation of this configuration is not the bsr sequence this rule knows")
+            else:
+                rep.unk("C09.countorder", "shape", "return value of cds_lfht_get_count_order_ulong not recognised: %s" % ir.expr_str(a))
+    pat.require(seen >= 2, "cds_lfht_get_count_order_ulong: zero / non-zero cases")
+    z = [(b.id, s_) for b in co.blocks for s_ in b.succ for a in ir.edge_atoms(co, b.id, s_) if a == ("eq", ("arg", 0), ("c", 0))]
+    rep.check(bool(z), "C09.countorder", "zero-test", "x == 0 is tested", "x == 0 is not singled out: fls(0 - 1) = word size is returned for an empty size", [co.name])
+
+
 def rule_wqwake(ctx, rep):
     """work queue (resize / destroy worker): futex_wake_up resets the word before FUTEX_WAKE, only when it is -1"""
     from .. import waitloop as _wl
@@ -383,6 +449,7 @@ RULES = [
     ("C09.size", rule_size),
     ("C09.order", rule_order),
     ("C09.loop", rule_loop),
+    ("C09.countorder", rule_countorder),
     ("C09.partition", rule_partition),
     ("C09.chain", lambda c, r: lfht.rule_chain(c, r, "C09.chain")),
     ("C09.bucket", lambda c, r: lfht.rule_bucket(c, r, "C09.bucket")),
